@@ -170,7 +170,10 @@ def run_case(kind, p):
     # --- transposition -----------------------------------------------------------------------------
     for nm, runner in (("fast", impl.run_fast), ("full", run_full)):
         a = runner(frame, pattern, peaks, b=p["b"], upsample=us)
-        b = runner(np.ascontiguousarray(frame.T), pattern, peaks[:, ::-1].copy(), b=p["b"], upsample=us)
+        pattern_t = pattern
+        if p["pattern"].get("user_shape"):       # a non-square user template is transposed with the frame
+            pattern_t = impl.pattern_from(dict(p["pattern"], user_shape=list(p["pattern"]["user_shape"])[::-1]))
+        b = runner(np.ascontiguousarray(frame.T), pattern_t, peaks[:, ::-1].copy(), b=p["b"], upsample=us)
         b = (b[0][:, ::-1], b[1][:, ::-1], b[2], b[3])
         clear = np.asarray(a[3]) > 1e-3            # a unique maximum (ties break in row-major order)
         # ... and unique beyond float32 rounding: where the two runs report different centres and the independent float64
@@ -271,7 +274,10 @@ def classify(kind, p, msgs):
     shape = tuple(p["shape"])
     frame = rng.poisson(30, shape).astype(np.float32) if p["frame_kind"] == "int" else impl.noise_frame(rng, shape, p["frame_kind"])
     peaks = np.asarray(p["peaks"], dtype=np.int64)
-    for fr, pk in ((frame, peaks), (np.ascontiguousarray(frame.T), peaks[:, ::-1].copy())):
+    pattern_t = pattern
+    if p["pattern"].get("user_shape"):
+        pattern_t = impl.pattern_from(dict(p["pattern"], user_shape=list(p["pattern"]["user_shape"])[::-1]))
+    for fr, pk, pattern in ((frame, peaks, pattern), (np.ascontiguousarray(frame.T), peaks[:, ::-1].copy(), pattern_t)):
         f64 = fr.astype(np.float64)
         for nm, runner in (("fast", impl.run_fast), ("full", impl.run_full)):
             if not any(m.startswith(nm + ",") for m in msgs):
@@ -295,6 +301,13 @@ def search(ctx, boost=1, focus=()):
     n = (160 if ctx.tier == "thorough" else 32) * boost
     for k in range(n):
         pat = impl.pattern_params(rng, rmin=2.0, rmax=5.0)
+        if (k // 5) % 4 == 2:
+            # a user template that is larger than the search window along one axis and smaller along the other (non-square)
+            r_ = float(np.round(rng.uniform(2.0, 3.5), 2))
+            c_ = int(rng.integers(6, 10))
+            big, small = 2 * c_ + int(rng.choice([1, 3, 5, 4])), 2 * c_ - int(rng.choice([1, 3, 5, 7, 2]))
+            small = max(small, 2 * int(np.ceil(r_)) + 3)
+            pat = {"kind": "user", "radius": r_, "search": float(c_), "user_shape": [big, small] if k % 2 else [small, big]}
         c = int(np.ceil(pat["search"]))
         shape = [int(rng.integers(2 * c + 6, 64)), int(rng.integers(2 * c + 6, 64))]
         if k % 3 == 0:
